@@ -200,7 +200,7 @@ class Direct:
         elif k == "rot":
             if s[2] not in self.live:
                 raise OutOfDomainProgram("dead qubit")
-            self.events.append(("rot_" + s[1].lower(), s[2], s[3], s[4]))
+            self.events.append(("rot_" + s[1].lower(), s[2], s[3], 0 if s[4] is None else s[4]))  # d omitted = documented default 0
         elif k == "meas":
             _, q, dst, inplace = s
             if q not in self.live:
@@ -396,7 +396,7 @@ class SdkRun:
             else:
                 getattr(qs[0], s[1])(qs[1])
         elif k == "rot":
-            getattr(self.qubits[s[2]], "rot_" + s[1])(n=s[3], d=s[4])
+            getattr(self.qubits[s[2]], "rot_" + s[1])(n=s[3], **({} if s[4] is None else {"d": s[4]}))
         elif k == "meas":
             _, q, dst, inplace = s
             qb = self.qubits[q]
@@ -738,7 +738,7 @@ class _Gen:
                 b = self.pick([x for x in allq if x != a])
                 return [["gate", self.pick(GATES2), [a, b]]]
             if self.chance(1, 4):
-                return [["rot", self.pick("XYZ"), self.pick(allq), self.d(st.integers(0, 31)), self.d(st.integers(0, 5))]]
+                return [["rot", self.pick("XYZ"), self.pick(allq), self.d(st.integers(0, 31)), None if self.chance(1, 5) else self.d(st.integers(0, 5))]]
             return [["gate", self.pick(GATES1), [self.pick(allq)]]]
         # measurement
         inplace = self.chance(1, 3) or not own
